@@ -135,9 +135,9 @@ package keepclient
 //@ iface io.Reader.Read
 //@   modifies elems(p) ghost:stream
 //@   ensures 0 <= result0 && result0 <= len(p)
-//@   ensures cursor(self) == old(cursor(self)) + result0 && cursor(self) <= len(stream(self))
-//@   ensures string(p[0:result0]) == stream(self)[old(cursor(self)):cursor(self)]
-//@   ensures result1 == io.EOF ==> cursor(self) == len(stream(self))
+//@   ensures cursor(self) == old(cursor(self)) + result0 && cursor(self) <= streamlen(self)
+//@   ensures forall k int :: 0 <= k && k < result0 ==> p[k] == streamat(self, old(cursor(self)) + k)
+//@   ensures result1 == io.EOF ==> cursor(self) == streamlen(self)
 
 // Read: io.EOF is passed on only if the digest of everything read matches
 // Check; the bytes handed to the hash are exactly p[:n].
